@@ -4,4 +4,4 @@ OUT=$1; PROP=$2; WT=/tmp/wt-seedtest-$PROP-$$
 git -C /repo worktree add -q --detach $WT HEAD || exit 3
 trap 'git -C /repo worktree remove --force '$WT'; rm -f /verif/replays/'$PROP'/viol-*' EXIT
 cd $WT && git apply $OUT/patch.diff && go build ./... || { echo "PATCH/BUILD FAILED"; exit 3; }
-cd /verif && VERIF_REPO=$WT ./check $PROP 2>&1 | grep -E "^(OK|VIOLATION|INCONCLUSIVE|  )" | cut -c1-250 | head -6
+cd /verif && VERIF_REPO=$WT ./check $PROP 2>&1 > /tmp/seedcheck-$$.log 2>&1; echo "exit=$? violations=$(grep -c '^VIOLATION' /tmp/seedcheck-$$.log)"; grep -E "^(OK|INCONCLUSIVE|  )" /tmp/seedcheck-$$.log | cut -c1-250 | head -6; rm -f /tmp/seedcheck-$$.log
